@@ -30,6 +30,8 @@ from .. import rx
 from ..consteval import Resources
 from ..core import AnalysisError
 from ..index import Index, Mod, get_index
+from ..ointerp import Bound, FuncRef, Interp, Native, PyExc, native
+from ..ointerp import Obj as IObj
 
 LEVEL = 'other'
 DESIGN_REF = 'DESIGN.md#c20'
@@ -1607,6 +1609,318 @@ class Recorder:
 
 
 # =====================================================================================================
+# tabulation: StringUtility.is_emoji and ChoiceExtractor.extract interpreted as written (sa/ointerp.py) on finite
+# grids - listed emoji code points, and token configurations around every listed expression
+# =====================================================================================================
+
+FILLER = 'zz'
+_EMOJI_TABLE = {}
+
+
+def emoji_table():
+    """the third-party `emoji` package's data read as a table (never imported):
+    -> None | dict(path, data {char: entry}, status {name: int})"""
+    if 'v' in _EMOJI_TABLE:
+        return _EMOJI_TABLE['v']
+    out = None
+    try:
+        import importlib.util
+        import json
+        import os
+        spec = importlib.util.find_spec('emoji')           # locates the package, does not import it
+        if spec is not None and spec.origin:
+            base = os.path.join(os.path.dirname(spec.origin), 'unicode_codes')
+            jp, dp = os.path.join(base, 'emoji.json'), os.path.join(base, 'data_dict.py')
+            if os.path.exists(jp) and os.path.exists(dp):
+                with open(jp, encoding='utf-8') as f:
+                    data = json.load(f)
+                tree = ast.parse(open(dp, encoding='utf-8').read())
+                consts, status = {}, None
+                for st in tree.body:
+                    tgt = st.targets[0] if isinstance(st, ast.Assign) and len(st.targets) == 1 else (
+                        st.target if isinstance(st, ast.AnnAssign) and st.value is not None else None)
+                    if not isinstance(tgt, ast.Name):
+                        continue
+                    if isinstance(st.value, ast.Constant) and isinstance(st.value.value, int):
+                        consts[tgt.id] = st.value.value
+                    elif tgt.id == 'STATUS' and isinstance(st.value, ast.Dict):
+                        status = {}
+                        for k, v in zip(st.value.keys, st.value.values):
+                            if isinstance(k, ast.Constant) and isinstance(v, ast.Name) and v.id in consts:
+                                status[k.value] = consts[v.id]
+                            elif isinstance(k, ast.Constant) and isinstance(v, ast.Constant):
+                                status[k.value] = v.value
+                if isinstance(data, dict) and status and all(isinstance(e, dict) and 'status' in e for e in list(data.values())[:50]):
+                    out = {'path': jp, 'data': data, 'status': status}
+    except (OSError, ValueError, SyntaxError, ImportError):
+        out = None
+    _EMOJI_TABLE['v'] = out
+    return out
+
+
+class ChoiceInterp(Interp):
+    """ointerp with the few extras the choice pipeline needs: grapheme `slice` (code points - the test strings hold no
+    combining sequences), the emoji package's names as natives over the table read from disk, list.index with a start
+    position, name-mangled private methods"""
+
+    def __init__(self, idx, hooks=None, budget=400000, where='ointerp', table=None, probes=()):
+        Interp.__init__(self, idx, hooks=hooks, budget=budget, where=where)
+        self.table = table
+        self.probes = probes
+
+    def _emoji_native(self, name, node):
+        t = self.table
+        if t is None:
+            self.fail(node, 'name %s of the emoji package (its data is not readable here)' % name)
+        data = t['data']
+        if name == 'demojize':
+            return native(lambda it, a, k: ''.join(data[ch].get('en', ':x:') if ch in data else ch for ch in a[0]))
+        if name in ('is_emoji', 'purely_emoji'):
+            return native(lambda it, a, k: a[0] in data)
+        if name == 'STATUS':
+            return {k: (k, v) for k, v in t['status'].items()}
+        if name == 'EMOJI_DATA':
+            d = {}
+            for ch in self.probes:
+                if ch in data:
+                    d[ch] = (ch, {k: (k, v) for k, v in data[ch].items() if isinstance(v, (str, int, float, bool, list))})
+            return d
+        self.fail(node, 'name %s of the emoji package' % name)
+
+    def resolve_name(self, name, mod, node):
+        imp = mod.imports.get(name) if mod is not None else None
+        if imp and imp[0] == 'from':
+            if imp[1].split('.')[0] == 'grapheme' and imp[2] == 'slice':
+                return native(lambda it, a, k: a[0] if len(a) == 1 else a[0][a[1]:(a[2] if len(a) > 2 else None)])
+            if imp[1].split('.')[0] == 'emoji':
+                return self._emoji_native(imp[2], node)
+        return Interp.resolve_name(self, name, mod, node)
+
+    def getattr(self, o, name, node, cls):
+        if isinstance(o, IObj) and name.startswith('__') and not name.endswith('__') and o.cls is not None \
+                and hasattr(o.cls, 'methods'):
+            for k in self.idx.mro(o.cls):
+                if name in k.methods:
+                    return Bound(o, FuncRef(k.mod, k.methods[name], k))
+        return Interp.getattr(self, o, name, node, cls)
+
+    def method(self, recv, name, args, kwargs, node):
+        if isinstance(recv, list) and name == 'index' and len(args) in (2, 3) and all(isinstance(a, int) for a in args[1:]):
+            hi = args[2] if len(args) == 3 else len(recv)
+            for i, x in enumerate(recv):
+                if args[1] <= i < hi and self.eq(x, args[0]):
+                    return i
+            raise PyExc('ValueError')
+        return Interp.method(self, recv, name, args, kwargs, node)
+
+
+def is_emoji_function(idx, xk):
+    """the classifier the tokenizer of extractor class xk calls -> (owner class, FunctionDef)"""
+    tk, tfn = None, None
+    for k in idx.mro(xk):
+        for nm, fn in k.methods.items():
+            if 'tokenize' in nm:
+                tk, tfn = k, fn
+    if tfn is None:
+        raise AnalysisError('%s: tokenizer of %s not found' % (xk.mod.rel, xk.name))
+    calls = [n for n in walk_fn(tfn) if isinstance(n, ast.Call) and isinstance(n.func, ast.Attribute) and 'emoji' in n.func.attr.lower()]
+    if not calls:
+        return None, None, tk, tfn
+    ucls = idx.resolve_class(tk.mod, calls[0].func.value)
+    if ucls is None or calls[0].func.attr not in ucls.methods:
+        raise AnalysisError('%s:%d emoji classifier %s not resolvable' % (tk.mod.rel, calls[0].lineno, ast.unparse(calls[0].func)))
+    return ucls, ucls.methods[calls[0].func.attr], tk, tfn
+
+
+def emoji_formulation(fn):
+    """fallback when the package data cannot be read: 'roundtrip' | 'lookup' | 'filtered' | None"""
+    names = {n.id for n in walk_fn(fn) if isinstance(n, ast.Name)}
+    if 'demojize' in names and not ({'EMOJI_DATA', 'STATUS'} & names):
+        return 'roundtrip'
+    if 'EMOJI_DATA' in names or 'is_emoji' in names:
+        extra = [n for n in walk_fn(fn) if isinstance(n, ast.Subscript) or
+                 (isinstance(n, ast.Compare) and not all(isinstance(o, (ast.Is, ast.IsNot, ast.In, ast.NotIn)) for o in n.ops))]
+        return 'filtered' if extra or 'STATUS' in names else 'lookup'
+    return None
+
+
+class EmojiModel:
+    """StringUtility.is_emoji decided per character: interpreted as written over the package table when it is readable"""
+
+    def __init__(self, idx, ucls, fn, probes):
+        self.idx, self.ucls, self.fn = idx, ucls, fn
+        self.table = emoji_table() if fn is not None else None
+        self.probes = tuple(probes)
+        self.cache = {}
+        self.form = emoji_formulation(fn) if fn is not None else 'none'
+
+    def __call__(self, ch):
+        if self.fn is None:
+            return False
+        if ch not in self.cache:
+            if self.table is None:
+                if self.form is None:
+                    raise AnalysisError('%s: formulation of %s not recognised and the emoji package data is not readable'
+                                        % (self.ucls.mod.rel, self.fn.name))
+                # roundtrip / lookup: whatever the package knows; filtered: unknown -> treated as possibly excluded
+                self.cache[ch] = (is_emoji_word(ch) and self.form in ('roundtrip', 'lookup'))
+            else:
+                it = ChoiceInterp(self.idx, where='%s.%s' % (self.ucls.name, self.fn.name), budget=20000, table=self.table,
+                                  probes=self.probes + (ch,))
+                try:
+                    r = it.call_function(FuncRef(self.ucls.mod, self.fn, self.ucls), [ch], {}, None, selfobj=None)
+                except PyExc as ex:
+                    raise AnalysisError('%s.%s(%r) raises %s' % (self.ucls.name, self.fn.name, ch, ex))
+                self.cache[ch] = bool(it.truth(r))
+        return self.cache[ch]
+
+
+class Tabulator:
+    """runs extract of an extractor class, as written, on a source string: patterns are stood in for by the finite
+    languages the word rules computed, the tokenizer pattern by its syntax tree, is_emoji by EmojiModel"""
+
+    def __init__(self, idx, xk, live_true, live_false, t_true, t_false, ttree, emoji, options):
+        self.idx, self.xk = idx, xk
+        self.fn = idx.find_method(xk, 'extract')[1]
+        self.owner = idx.find_method(xk, 'extract')[0]
+        self.langs = {'T': sorted(live_true, key=lambda w: (-len(w), w)), 'F': sorted(live_false, key=lambda w: (-len(w), w))}
+        self.types = {'T': t_true, 'F': t_false}
+        self.ttree, self.emoji, self.options = ttree, emoji, options
+        self.runs = 0
+
+    def _matches(self, tag, text):
+        cands = []
+        for w in self.langs[tag]:
+            pat = re.escape(w).replace('\\ ', r'\s+')
+            if w[0].isalnum() or w[0] == '_':
+                pat = r'(?<!\w)' + pat
+            if w[-1].isalnum() or w[-1] == '_':
+                pat = pat + r'(?!\w)'
+            for m in re.finditer(pat, text):
+                cands.append((m.start(), -(m.end() - m.start()), m.group()))
+        cands.sort()
+        out, pos = [], 0
+        for s_, neg, g in cands:        # leftmost, longest, non-overlapping - as finditer over an alternation between \b
+            if s_ >= pos:
+                out.append((s_, g))
+                pos = s_ - neg
+        return out
+
+    def extract(self, source, only_top):
+        pats = {t: Native({'pattern': t}, 'pattern-' + t) for t in ('T', 'F')}
+        tag_of = {id(v): k for k, v in pats.items()}
+
+        def finditer(it, args, kw):
+            pat, text = args[0], args[1]
+            if id(pat) not in tag_of or not isinstance(text, str):
+                raise AnalysisError('extract: finditer called with something else than a pattern of the map and a text')
+            return [Native({'group': native(lambda it_, a, k, g=g: g), 'start': native(lambda it_, a, k, s_=s_: s_),
+                            'end': native(lambda it_, a, k, s_=s_, g=g: s_ + len(g)),
+                            'span': native(lambda it_, a, k, s_=s_, g=g: [s_, s_ + len(g)])}, 'match')
+                    for s_, g in self._matches(tag_of[id(pat)], text)]
+
+        ttree = self.ttree
+        tokpat = Native({'search': native(lambda it, a, k: (True if rx.matches(ttree, a[0]) else None))}, 'token-pattern')
+        hooks = {'regex.finditer': finditer, 'regex.compile': lambda it, a, k: tokpat,
+                 'StringUtility.remove_unicode_matches': lambda it, a, k: a[0],
+                 'StringUtility.is_emoji': lambda it, a, k: self.emoji(a[0])}
+        it = ChoiceInterp(self.idx, hooks=hooks, where='%s.extract' % self.owner.name, budget=300000)
+        table = dict(self.options)
+        table['regexes_map'] = {it.key(pats['T']): (pats['T'], self.types['T']), it.key(pats['F']): (pats['F'], self.types['F'])}
+        table['only_top_match'] = only_top
+        table['token_regex'] = tokpat
+        selfo = IObj(self.xk, {'config': Native(table, 'options')})
+        self.runs += 1
+        try:
+            out = it.call_function(FuncRef(self.owner.mod, self.fn, self.owner), [source], {}, None, selfobj=selfo)
+        except PyExc as ex:
+            return 'raises %s' % ex
+        if not isinstance(out, list) or not all(isinstance(o, IObj) for o in out):
+            raise AnalysisError('extract returned %r' % (out,))
+        res = []
+        for o in out:
+            try:
+                res.append((o.attrs['start'], o.attrs['text'], o.attrs['type']))
+            except KeyError as e:
+                raise AnalysisError('extract result lacks %s' % e)
+        return res
+
+
+def tokens_of(w, is_sep):
+    out, cur = [], ''
+    for ch in w:
+        if ch.isspace() or is_sep(ch):
+            if cur:
+                out.append(cur)
+            cur = ''
+        else:
+            cur += ch
+    if cur:
+        out.append(cur)
+    return out
+
+
+def tabulate_scoring(tab, listed, is_sep, max_n):
+    """listed: [(expression, tag 'T'|'F')] -> (findings per multi-token phrase, finding for the single-token sweep)
+    finding = (phrase, configurations, first failure text or None)"""
+    singles, phrases = [], []
+    alone = {w for w, _t in listed}
+    for w, tag in listed:
+        if is_emoji_word(w):
+            toks = list(w)
+        else:
+            toks = tokens_of(w, is_sep)
+        if len(toks) >= 2 and not is_emoji_word(w):
+            phrases.append((w, tag, toks))
+        elif len(toks) == 1:
+            singles.append((w, tag))
+    out = []
+    for w, tag, toks in sorted(phrases):
+        k = len(toks)
+        n_conf, fail = 0, None
+        for n in range(k, max_n + 1):
+            for j in range(0, n - k + 1):
+                extras = [None] + [(pos, t) for pos in range(n) if not j <= pos < j + k for t in sorted(set(toks))]
+                for ex in extras:
+                    src_t = [FILLER] * n
+                    src_t[j:j + k] = toks
+                    if ex is not None:
+                        src_t[ex[0]] = ex[1]
+                    # the phrase may now also stand elsewhere (extra token next to a filler never completes it: fillers differ)
+                    source = ' '.join(src_t)
+                    places = [sum(len(x) + 1 for x in src_t[:q]) for q in range(0, n - k + 1) if src_t[q:q + k] == toks]
+                    phrase_text = ' '.join(toks)
+                    n_conf += 1
+                    got = tab.extract(source, False)
+                    ok1 = isinstance(got, list) and any(st in places and tx == phrase_text and ty == tab.types[tag] for st, tx, ty in got)
+                    why = None
+                    if not ok1:
+                        why = 'no candidate for %r in %r (candidates kept: %s)' % (phrase_text, source, got)
+                    elif ex is None or ex[1] not in alone:
+                        top = tab.extract(source, True)
+                        if not (isinstance(top, list) and len(top) == 1 and top[0][0] in places and top[0][1] == phrase_text
+                                and top[0][2] == tab.types[tag]):
+                            why = 'reported entity for %r is %s, not %r' % (source, top, phrase_text)
+                    if why and fail is None:
+                        fail = why
+        out.append((w, n_conf, fail))
+    s_conf, s_fail = 0, None
+    for w, tag in sorted(singles):
+        for n in (1, 2, 3):
+            for j in range(n):
+                src_t = [FILLER] * n
+                src_t[j] = w
+                source = ' '.join(src_t)
+                place = sum(len(x) + 1 for x in src_t[:j])
+                s_conf += 1
+                for top in (False, True):
+                    got = tab.extract(source, top)
+                    if not (isinstance(got, list) and len(got) == 1 and got[0] == (place, w, tab.types[tag])) and s_fail is None:
+                        s_fail = '%r in %r: %s' % (w, source, got)
+    return out, (s_conf, s_fail)
+
+
+# =====================================================================================================
 # the analysis (run on the indexed tree, and on embedded control packages)
 # =====================================================================================================
 
@@ -1629,10 +1943,12 @@ RULES = [
     ('C20.sentinel', 'index_of\'s not-found value fails the found-guard of match_value', 1),
     ('C20.unbound', 'no local is read after a swallowing try that may not have assigned it', 1),
     ('C20.span', 'the reported start is the match position', 1),
+    ('C20.is-emoji', 'the tokenizer\'s emoji classifier accepts every listed single-code-point emoji and no plain character', 2),
+    ('C20.scoring', 'extract as written keeps (and reports) a contiguous listed expression on every tabulated token configuration', 2),
 ]
 
 
-def analyse(idx, E, where_tag=''):
+def analyse(idx, E, tab=None):
     R = Resources(idx)
     rec = idx.cls('ChoiceRecognizer')
     E.consulted(rec.mod.path)
@@ -1665,10 +1981,10 @@ def analyse(idx, E, where_tag=''):
     ev = Evaluator(idx)
     done_classes = set()
     for r in regs:
-        analyse_registration(idx, R, E, ev, r, done_classes)
+        analyse_registration(idx, R, E, ev, r, done_classes, tab)
 
 
-def analyse_registration(idx, R, E, ev, r, done):
+def analyse_registration(idx, R, E, ev, r, done, tab=None):
     # ---- configuration slots
     E.consulted(r.config_cls.mod.path)
     slots = config_slots(idx, r.config_cls, r.config_call, r.mod)
@@ -1821,7 +2137,10 @@ def analyse_registration(idx, R, E, ev, r, done):
         analyse_score(idx, E, ev, r, xk, xfn, ppk, pfn, gk, gfn, gparam, gdict, gname, sentinel_broken, other_live)
 
     # ---- (ii) word languages
-    analyse_words(idx, E, r, vals, wired, info['matching'], lowered)
+    pol, is_sep, ttree = analyse_words(idx, E, r, vals, wired, info['matching'], lowered)
+
+    # ---- is_emoji on the listed code points; extract interpreted as written on token configurations
+    analyse_tabulation(idx, E, r, xk, pol, is_sep, ttree, emap, stores, wired, tab)
 
 
 # =====================================================================================================
@@ -2327,6 +2646,75 @@ def analyse_words(idx, E, r, vals, wired, matching, lowered):
     else:
         E.exempt('C20.disjoint', r.mod.path, '%s TrueRegex / FalseRegex' % r.construct,
                  'not decidable: a matched pattern is malformed (reported under C20.rewrite)', 'languages not available', r.line)
+    return pol, is_sep, ttree
+
+
+def analyse_tabulation(idx, E, r, xk, pol, is_sep, ttree, emap, stores, wired, tab):
+    usable = len(pol) == 2 and not any(A['compile'] for A in pol.values())
+    # ---- is_emoji decided on every listed single-code-point emoji
+    ucls, efn, tk, tfn = is_emoji_function(idx, xk)
+    listed1 = []
+    for tag in ('true', 'false'):
+        if tag in pol:
+            listed1 += [(tag, w) for w in sorted(pol[tag]['listed']) if is_emoji_word(w) and len(w) == 1]
+    model = EmojiModel(idx, ucls, efn, [w for _t, w in listed1])
+    if efn is not None:
+        E.consulted(ucls.mod.path)
+    if model.table is not None:
+        E.consulted(model.table['path'])
+        E.observe('third-party table consulted for is_emoji: %s (%d entries); %s.%s is interpreted as written over it'
+                  % (model.table['path'], len(model.table['data']), ucls.name, efn.name))
+    where = (ucls.mod.path, '%s.%s' % (ucls.name, efn.name)) if efn is not None else (tk.mod.path, qual(tk, tfn))
+    for tag, w in listed1:
+        c, a = wired['regex_true' if tag == 'true' else 'regex_false']
+        good = model(w)
+        how = 'interpreted over the emoji table' if model.table is not None else 'formulation: %s' % model.form
+        E.judge(good, 'C20.is-emoji', where[0], '%s U+%04X (%s.%s)' % (where[1], ord(w), c.name, a),
+                'is_emoji(U+%04X) = %s (%s)' % (ord(w), good, how),
+                'the listed %s emoji U+%04X is not an emoji for the tokenizer: it is discarded as a separator, neither the query '
+                'nor the match yields a token and recognize_boolean(%s, %r) reports nothing'
+                % ('affirmative' if tag == 'true' else 'negative', ord(w), ascii(w), r.culture),
+                efn.lineno if efn is not None else tfn.lineno)
+    plain = [ch for ch in ['a', 'z', 'y', '0', '9', '_', ' ', ',', '.', '!', '?', "'"] if model(ch)]
+    E.judge(not plain, 'C20.is-emoji', where[0], '%s plain characters' % where[1],
+            'letters, digits, blank and punctuation classified as emoji: %s' % [repr(c_) for c_ in plain],
+            'ordinary characters are classified as emoji: every letter becomes a token of its own and no word matches',
+            efn.lineno if efn is not None else tfn.lineno)
+    if tab is None or not usable:
+        if tab is not None:
+            E.exempt('C20.scoring', xk.mod.path, '%s %s.extract' % (r.construct, xk.name),
+                     'not decidable: a matched pattern is malformed (reported under C20.rewrite)', 'languages not available', None)
+        return
+    # ---- extract, as written, on token configurations
+    types = {}
+    for slot, tag in (('regex_true', 'T'), ('regex_false', 'F')):
+        ts = [t for s_, t, _l in emap if s_ == slot]
+        if not ts:
+            return
+        types[tag] = ts[-1]
+    options = {}
+    ek = r.extractor_cls
+    for name in ('max_distance', 'allow_partial_match'):
+        if name not in stores:
+            raise AnalysisError('%s: option %s of the extractor is not set by %s.__init__' % (ek.mod.rel, name, ek.name))
+        try:
+            options[name] = const_of(idx, ek.mod, stores[name])
+        except Unres as e:
+            raise AnalysisError('%s: option %s not evaluable (%s)' % (ek.mod.rel, name, e))
+    T = Tabulator(idx, xk, pol['true']['live'], pol['false']['live'], types['T'], types['F'], ttree, model, options)
+    listed = [(w, 'T') for w in pol['true']['live']] + [(w, 'F') for w in pol['false']['live']]
+    xo, xfn = idx.find_method(xk, 'extract')
+    phrases, (s_conf, s_fail) = tabulate_scoring(T, listed, is_sep, tab['max_n'])
+    for w, n_conf, fail in phrases:
+        E.judge(fail is None, 'C20.scoring', xo.mod.path, '%s %s.extract phrase %r' % (r.construct, xo.name, w),
+                'contiguous occurrence keeps its candidate and is the reported entity' if fail is None else fail,
+                'extract, interpreted as written on sources of up to %d tokens (fillers, the phrase contiguous, one more occurrence '
+                'of one of its tokens elsewhere): %s' % (tab['max_n'], fail), xfn.lineno)
+    E.judge(s_fail is None, 'C20.scoring', xo.mod.path, '%s %s.extract single-token expressions' % (r.construct, xo.name),
+            'every single-token expression alone or between fillers is the one reported entity' if s_fail is None else s_fail,
+            'extract, interpreted as written: %s' % s_fail, xfn.lineno)
+    E.observe('%s: extract interpreted on %d sources (%d phrase configurations up to %d tokens for %s; %d single-token placements)'
+              % (r.construct, T.runs, sum(n for _w, n, _f in phrases), tab['max_n'], [w for w, _n, _f in phrases], s_conf))
 
 
 def run(chk):
@@ -2341,7 +2729,7 @@ def run(chk):
     chk.assume('L+ treats \\b and look-arounds as always true: membership of a listed expression in the matched language is a '
                'necessary condition for recognising it')
     idx = get_index()
-    analyse(idx, chk)
+    analyse(idx, chk, tab={'max_n': 7})
     chk.exhaustive = True
     controls(chk)
 
